@@ -1,6 +1,76 @@
 (* C07 - a failing or slow host never harms the others; time-outs bound the run.
-   Statements only; proofs in Dsh/SysFacts.v. *)
-From PV Require Import Dsh.Sys.
+   Statements only; proofs in Dsh/SysFacts.v and Dsh/SysProj.v.  The system (Dsh/Sys.v) is the
+   whole dsh() run: dispatcher, one worker per target with an arbitrary behaviour assigned to
+   each host (ok / refuse / hang in connect / hang mid-command), the watchdog, the integer clock.
+   Every statement is for every number of targets, every fanout >= 1, every assignment of
+   behaviours, every time-out setting and every admitted event sequence. *)
+From PV Require Import Dsh.Sys Dsh.SysFacts Dsh.SysProj.
 Local Open Scope Z_scope.
-Example C07_model_runs : exists s, run (mkcfg 1 1 1 0 false [BOk]) (init (mkcfg 1 1 1 0 false [BOk]) 1000) [ELockD; ECreate 0; EUnlockD; EStart 0] = Some s.
-Proof. eexists. vm_compute. reflexivity. Qed.
+
+(* ---- isolation: whatever the other hosts do, each target gets exactly one command ---- *)
+(* at most once, in order (create, connect, tear down), only real targets *)
+Theorem C07_each_target_once : forall (c : cfg), (0 < ntgt c)%nat -> 1 <= f c -> forall t0 es s i,
+  run c (init c t0) es = Some s -> nosig es ->
+  (nevs (is_create i) es <= 1)%nat /\ (nevs (is_connbegin i) es <= nevs (is_create i) es)%nat /\
+  (nevs (is_destroy i) es <= nevs (is_connbegin i) es)%nat /\ (nevs (is_create i) es = 1%nat -> (i < ntgt c)%nat).
+Proof. exact faults_once. Qed.
+Print Assumptions C07_each_target_once.
+
+(* pdsh returns only after every target - refused, hung, timed out or healthy - was started
+   once, torn down once and its worker has signalled completion: no fault path skips the
+   epilogue, none runs it twice *)
+Theorem C07_exit_after_all : forall (c : cfg), (0 < ntgt c)%nat -> 1 <= f c -> forall t0 es s,
+  run c (init c t0) es = Some s -> nosig es -> In EExit es ->
+  tc s = 0 /\ forall i, (i < ntgt c)%nat ->
+    (exists w, nth_error (ws s) i = Some w /\ pc w = PExit) /\
+    nevs (is_create i) es = 1%nat /\ nevs (is_connbegin i) es = 1%nat /\ nevs (is_destroy i) es = 1%nat.
+Proof. exact faults_exit_after_all. Qed.
+Print Assumptions C07_exit_after_all.
+
+(* failing hosts do not leak or double-release fanout slots *)
+Theorem C07_fanout_bound_with_faults : forall (c : cfg), (0 < ntgt c)%nat -> 1 <= f c -> forall t0 es s,
+  run c (init c t0) es = Some s -> nosig es -> inflight s <= f c /\ 0 <= tc s <= f c.
+Proof. exact faults_bound. Qed.
+Print Assumptions C07_fanout_bound_with_faults.
+
+(* ---- time-outs ---- *)
+(* On every run in which time advances only while every thread is blocked (Sys.calm: watchdog
+   asleep and not due, every worker not created / inside connect() or poll() with no signal
+   pending / gone), a worker hanging un-signalled in connect() with a positive connect timeout
+   [hang_due = start + timeout], or in the read loop with a positive command timeout
+   [hang_due = connect stamp + timeout], is never seen later than that plus the watchdog period:
+   it has been sent SIGALRM by then. *)
+Theorem C07_deadline : forall (c : cfg) t0 es s i w t, urun c (init c t0) es s ->
+  nth_error (ws s) i = Some w -> hang_due c i w = Some t -> now s <= t + Z.of_N WDOG_POLL.
+Proof. exact deadline. Qed.
+Print Assumptions C07_deadline.
+
+(* ... and nobody is signalled early: the watchdog selects a slot only when its stamp + timeout
+   is strictly in the past on the watchdog's own reading of the clock *)
+Theorem C07_kill_only_when_overdue : forall (c : cfg) s e s' j, step c s e = Some s' -> wd s' = WdKilling j ->
+  (e = EWdWake \/ exists i, e = EWdKill i) ->
+  exists w, nth_error (ws s') j = Some w /\ killable c s' w = true.
+Proof. exact kill_only_when_overdue. Qed.
+Print Assumptions C07_kill_only_when_overdue.
+
+(* the documented meaning of command timeout 0: a host hanging mid-command is waited for *)
+Theorem C07_timeout0_never_abandons : forall (c : cfg) s w, tcmd c <= 0 -> ts w = TReading -> killable c s w = false.
+Proof. exact timeout0_never_abandons. Qed.
+Print Assumptions C07_timeout0_never_abandons.
+
+(* non-vacuity: the deadline is attained.  Two targets, the first hangs in connect(); connect
+   timeout 2; the worker starts at t=1000, the watchdog polls at 1000, 1002 (not yet overdue:
+   1002 < 1002 is false) and 1004 = 1000 + 2 + WDOG_POLL, when it signals. *)
+Example C07_nonvacuous :
+  let c := mkcfg 2 2 2 0 false [BHangConn; BOk] in
+  let es := [EWdWake; ELockD; ECreate 0; EUnlockD; EStart 0; ELock1 0; EUnlock1 0; EConnBegin 0;
+             ELockD; ECreate 1; EUnlockD; EStart 1; ELock1 1; EUnlock1 1; EConnBegin 1; EConnOk 1; ELock1 1; EUnlock1 1;
+             ELock1 1; EUnlock1 1; EDestroy 1; ELock0 1; ESignal 1; EUnlock0 1; ELockD; EWaitD;
+             ETick; ETick; EWdWake; ETick; ETick] in
+  exists s w, urun c (init c 1000) es s /\ nth_error (ws s) 0 = Some w /\ hang_due c 0 w = Some 1002 /\ now s = 1004 /\
+              step c s EWdWake <> None /\ (forall s', step c s EWdWake = Some s' -> wd s' = WdKilling 0).
+Proof.
+  cbv zeta. eexists. eexists. split; [apply urunb_urun; vm_compute; reflexivity|].
+  split; [vm_compute; reflexivity|]. split; [vm_compute; reflexivity|]. split; [vm_compute; reflexivity|].
+  split; [vm_compute; discriminate|]. intros s' H. vm_compute in H. inversion H; subst. reflexivity.
+Qed.
